@@ -25,8 +25,11 @@ func init() {
 	register("StagesSrc.json", translateStagesJSON)
 }
 
-var stageExts = []string{"redis", "amqp", "kafka"}
-var stageFiles = []string{"main.go", "helpers.go"}
+var stageExts = []string{"redis", "amqp", "kafka", "http", "dns"}
+
+// the files whose functions are translated (Summarize, Represent and the helpers they reach)
+var stageFilesOf = map[string][]string{"redis": {"main.go", "helpers.go"}, "amqp": {"main.go", "helpers.go"}, "kafka": {"main.go", "helpers.go"},
+	"http": {"main.go", "helpers.go"}, "dns": {"main.go"}}
 
 // static Go type of a tracked expression
 const (
@@ -47,7 +50,18 @@ const (
 	bOk       // the ok of  v, ok := x.(T)
 	bErrFalse // err of json.Marshal / oj.ParseString / jp.ParseString: taken as nil
 	bEntry    // the *api.Entry parameter of Summarize
+	bTypeOf   // reflect.TypeOf(x) of a tracked interface{} variable x
+	bKind     // a reflect.Kind: a constant, or the kind of a tracked non-nil variable
+	bKeys     // a []string holding exactly the keys of a tracked map (collected by a range)
 )
+
+// reflect kinds and the JSON type a decoded value of that kind has ("" : no decoded value has it)
+var reflectKinds = map[string]string{"Invalid": "", "Bool": "TyBool", "Int": "", "Int8": "", "Int16": "", "Int32": "", "Int64": "", "Uint": "",
+	"Uint8": "", "Uint16": "", "Uint32": "", "Uint64": "", "Uintptr": "", "Float32": "", "Float64": "TyNum", "Complex64": "", "Complex128": "",
+	"Array": "", "Chan": "", "Func": "", "Interface": "", "Map": "TyObj", "Ptr": "", "Pointer": "", "Slice": "TyArr", "String": "TyStr",
+	"Struct": "", "UnsafePointer": ""}
+
+var tyStatic = map[string]int{"TyBool": stBool, "TyNum": stNum, "TyStr": stStr, "TyArr": stSlice, "TyObj": stMap}
 
 type binding struct {
 	kind     int
@@ -64,6 +78,11 @@ type binding struct {
 	okOjg    bool
 	okParent *binding
 	okRoot   int
+	kconst   string   // bKind: the constant's name, or ""
+	symVar   string   // bTypeOf / bKind / bKeys: Coq name of the variable it was taken from
+	symOjg   bool
+	symFrom  *binding // that variable
+	symName  string   // its Go name
 }
 
 // immutable scope chain; boundary nodes stop name resolution (inlined callee) but not the
@@ -174,7 +193,7 @@ func loadStagePkg(ext string, fileBase int) (*stagePkg, error) {
 	dir := filepath.Join(*repo, "pkg", "extensions", ext)
 	all, _ := filepath.Glob(filepath.Join(dir, "*.go"))
 	sort.Strings(all)
-	for i, f := range stageFiles {
+	for i, f := range stageFilesOf[ext] {
 		p.fileIdx[f] = fileBase + i
 	}
 	for _, f := range all {
@@ -271,13 +290,13 @@ func runStages() (*stagesOut, error) {
 	out := &stagesOut{}
 	var pkgs []*stagePkg
 	maxLine := 0
-	for i, ext := range stageExts {
-		p, err := loadStagePkg(ext, 1+i*len(stageFiles))
+	for _, ext := range stageExts {
+		p, err := loadStagePkg(ext, 1+len(out.files))
 		if err != nil {
 			return nil, err
 		}
 		pkgs = append(pkgs, p)
-		for _, f := range stageFiles {
+		for _, f := range stageFilesOf[ext] {
 			out.files = append(out.files, ext+"/"+f)
 		}
 		p.fset.Iterate(func(f *token.File) bool {
@@ -329,12 +348,13 @@ func runStages() (*stagesOut, error) {
 }
 
 const stagesHeader = `(* generated by vh-translate (harness/cmd/vh-translate/stages.go) from
-   pkg/extensions/{redis,amqp,kafka}/{main.go,helpers.go}: do not edit.
+   pkg/extensions/{redis,amqp,kafka,http}/{main.go,helpers.go} and pkg/extensions/dns/main.go: do not edit.
 
    prog_<ext>_<stage>: what Summarize / Represent (helpers inlined) do to the request and response
    maps, as a program of Shape/Access.v.  Tracked values are the variables "request"/"response"
    (entry.Request / entry.Response in Summarize) and everything derived from them by index,
-   assertion, range, comma-ok; every type assertion on a tracked value is an EAs site
+   assertion, range, comma-ok; every type assertion on a tracked value is an EAs site and every
+   index of a tracked slice with a constant an EIdx site
    (site = file index * site_file_mul + Go line, files in stage_files).
 
    Assumptions of the translation (trusted, exercised by the model-vs-implementation check):
@@ -349,7 +369,17 @@ const stagesHeader = `(* generated by vh-translate (harness/cmd/vh-translate/sta
    * operands are evaluated left to right; functions of other packages (fmt, strconv,
      encoding/json, sort, ...) do not panic and do not modify their arguments;
    * code that does no index / assertion / range on a tracked value is dropped; a condition on
-     untracked data is accepted only when both branches are such code.
+     untracked data is accepted only when both branches are such code;
+   * the JSON text of a value (json.Marshal) is never empty: len(text) > 0 is true;
+   * "x = e" in a branch of an "if" that stands in the block of x (e a tracked expression, a string
+     constant, a reflect.Kind) re-binds x for the rest of that block, which is translated inside
+     the branch (the continuation is duplicated);
+   * an interface{} compared with a string constant is a string test followed by the comparison;
+   * reflect.TypeOf(x) == nil is x == nil; the reflect.Kind of a non-nil decoded JSON value is Bool /
+     Float64 / String / Slice / Map according to its type, so a switch on it is a chain of dynamic
+     type tests (SIfOk); no decoded value has another kind;
+   * "for k := range m { keys = append(keys, k) } ... for _, k := range keys { ... m[k] ... }" is a
+     loop over m: the order of the iteration (the keys may have been sorted) is not modelled.
    Outside the model: panics from other causes (nil pointers, arithmetic, slicing or indexing of
    untracked data), the form of the output. *)
 `
